@@ -117,6 +117,8 @@ structure Server where
   dlFolder : Bool := false
   /-- the (5432, tcp) entry of the port map points at a co-located database client -/
   portCo : Bool := false
+  /-- operating state of the co-located database client (installed CLOSED; run by the host's start-up actions or `run()`) -/
+  coApp : AppState := .closed
   /-- FTP client: restart countdown (while RESTARTING) and fix countdown (`some n` = health FIXING, `none` = GOOD) -/
   ftpcRestartCd : Nat := 0
   ftpcFix : Option Nat := none
@@ -427,12 +429,13 @@ def Server.request (s : Server) (r : SvcReq) : Server × Option Bool :=
 /-- start-up actions on the database host: `start()` of every installed service -/
 def Server.startUp (s : Server) : Server :=
   let s := if s.installed then let x := svcStart true s.op s.health; { s with op := x.1, health := x.2.1 } else s
-  { s with ftpc := s.ftpc.map (fun f => (svcStart true f .good).1) }
+  { s with ftpc := s.ftpc.map (fun f => (svcStart true f .good).1),
+           coApp := if s.coClient && s.coApp == .closed then .running else s.coApp }
 
 /-- shut-down actions: `stop()` of every installed service -/
 def Server.shutDown (s : Server) : Server :=
   let s := if s.installed then { s with op := (svcStop s.op).1 } else s
-  { s with ftpc := s.ftpc.map (fun f => (svcStop f).1) }
+  { s with ftpc := s.ftpc.map (fun f => (svcStop f).1), coApp := .closed }
 
 /-- `srv.power_on()`: start-up actions run at once when the start-up duration is 0. -/
 def Server.powerOn (s : Server) : Server :=
@@ -463,6 +466,7 @@ inductive Admin
   | svcUninstall                -- `software_manager.uninstall('database-service')`
   | bkcfg (on : Bool)           -- `configure_backup(ip)` / `backup_server_ip = None`
   | coInstall | coUninstall     -- a database client on the database host
+  | coRun                       -- `run()` of that client
 deriving DecidableEq, Repr
 
 /-- defaults of a freshly installed FTP client (`Service.restart_duration`, `Software.ConfigSchema.fixing_duration`) -/
@@ -512,8 +516,11 @@ def Server.admin (s : Server) : Admin → Server × Option Bool
     -- the port-map entry is removed only when it is the service's own
     if s.installed then ({ s with installed := false, portMine := false }, some true) else (s, none)
   | .bkcfg on => ({ s with backupConfigured := on }, some true)
-  | .coInstall => if s.coClient then (s, none) else ({ s with coClient := true, portMine := false, portCo := true }, some true)
-  | .coUninstall => if s.coClient then ({ s with coClient := false, portCo := false }, some true) else (s, none)
+  | .coInstall =>
+    if s.coClient then (s, none) else ({ s with coClient := true, portMine := false, portCo := true, coApp := .closed }, some true)
+  | .coUninstall => if s.coClient then ({ s with coClient := false, portCo := false, coApp := .closed }, some true) else (s, none)
+  | .coRun =>
+    if s.coClient then ({ s with coApp := if s.node.isOn && s.coApp == .closed then .running else s.coApp }, some true) else (s, none)
 
 /-- outcome of `software_manager.install(DatabaseService[, config])` -/
 inductive InstallOut | refused | raised | done
@@ -1050,9 +1057,14 @@ def step (st : State) : Op → State × Out
     | .refused => (st, { rejected := true })
     | .raised => (st, { raised := true })
   | .co k =>
-    -- a client on the database host addresses its own host: nothing reaches the service, every call fails
+    -- a client on the database host addresses its own host. While it cannot act, or the (5432, tcp) entry is not the
+    -- service's (the payload comes back to the client itself, or is dropped), or the service does not answer, every call
+    -- simply fails.  Otherwise the service's answer is delivered to the service again (it owns the port), which answers the
+    -- answer, and so on: the real call does not return (RecursionError) - explicit outcome `raised`, the trace ends here.
     if !st.srv.coClient then (st, { rejected := true })
-    else if k = 2 then (if st.srv.node.isOn then (st, { res := some false }) else (st, { rejected := true }))
+    else if k = 2 && !st.srv.node.isOn then (st, { rejected := true })
+    -- (`query` on the native connection sends nothing: that client never holds one)
+    else if k != 1 && st.srv.coApp == .running && st.srv.node.isOn && st.srv.listening && st.srv.canAct then (st, { raised := true })
     else (st, { res := some false })
   | .bkDelete =>
     match st.bk.stored with
